@@ -482,7 +482,7 @@ def forward_signatures(func, calls, args, kwargs, sig):
             # the other starred argument resolves to something that is
             # not a sequence / a mapping
             raise UnknownForwards
-        using_partial = wrapped_func == functools.partial
+        using_partial = wrapped_func is functools.partial
         if using_partial:
             if not fwdargsvals:
                 # partial(*args, **kwargs): what is wrapped is not known
